@@ -698,7 +698,11 @@ def create_aliases(nd: AstNode, num_occurrences: dict[str, int]) -> dict[str, in
     elif isinstance(nd, TableImpl):
         table_name = nd.table.name
         if cnt := num_occurrences.get(table_name):
-            nd.table = nd.table.alias(f"{table_name}_{cnt}")
+            # the generated alias must not be the name (or alias) of another table
+            while (alias := f"{table_name}_{cnt}") in num_occurrences:
+                cnt += 1
+            nd.table = nd.table.alias(alias)
+            num_occurrences[alias] = 1
         else:
             # always set alias to shorten queries with schemas
             nd.table = nd.table.alias(table_name)
